@@ -53,8 +53,7 @@ func TestUnsupported(t *testing.T) {
 	verif, _ := filepath.Abs("../..")
 	cases := map[string]string{
 		"go statement":    "package lib\nfunc F() { go func() {}() }\n",
-		"channel receive": "package lib\nfunc F(c chan int) int { return <-c }\n",
-		"channel send":    "package lib\nfunc F(c chan int) { c <- 1 }\n",
+		"range over chan": "package lib\nfunc F(c chan int) { for range c {} }\n",
 		"select":          "package lib\nfunc F(c chan int) { select { case <-c: default: } }\n",
 		"time.Sleep":      "package lib\nimport \"time\"\nfunc F() { time.Sleep(1) }\n",
 		"sync.WaitGroup":  "package lib\nimport \"sync\"\nvar wg sync.WaitGroup\nfunc F() { wg.Wait() }\n",
